@@ -167,14 +167,18 @@ fn to_pattern(field: &[AttrChar]) -> Option<Pattern> {
     impl Iterator for Chars<'_> {
         type Item = PatternChar;
         fn next(&mut self) -> Option<PatternChar> {
-            for c in &mut self.inner {
+            while let Some(c) = self.inner.next() {
                 let quoted = std::mem::replace(&mut self.next_quoted, false);
                 if c.is_quoting {
                     continue;
                 } else if quoted || c.is_quoted || c.origin == Origin::HardExpansion {
                     return Some(PatternChar::Literal(c.value));
+                } else if c.value == '\\' && !self.inner.as_slice().is_empty() {
+                    // An escaping backslash quotes the next character and is
+                    // itself discarded (POSIX XCU 2.14.1).
+                    self.next_quoted = true;
+                    continue;
                 } else {
-                    self.next_quoted = c.value == '\\';
                     return Some(PatternChar::Normal(c.value));
                 }
             }
